@@ -211,7 +211,7 @@ func Generate(r *sim.Rng, prop, tier string, idx int) *sim.Case {
 	case "C11":
 		mode = sim.Pick(r, "seq", "seq", "conc")
 	}
-	if prop == "C11" && mode == "seq" && r.Chance(1, 5) {
+	if (prop == "C11" && mode == "seq" && r.Chance(1, 5)) || (prop == "C08" && r.Chance(1, 8)) {
 		mode = "seqp" // delete callbacks that panic inside Remove/Clear, recovered by the caller
 	}
 	c.Mode = mode
@@ -335,7 +335,44 @@ func hugeCapacity(r *sim.Rng) int64 {
 	return sim.Pick(r, int64(1)<<31-1, int64(1)<<31, int64(1)<<31+1, int64(1)<<32, int64(1)<<32+1, int64(1)<<32+2, int64(1)<<40+1, int64(^uint64(0)>>1))
 }
 
+// genBigConc: a cache with many thousands of resident entries, a creation that is slow,
+// and Clear / Remove / other misses running meanwhile. Too long for the history checker;
+// the ledger (every created value deleted exactly once, none twice, none while resident),
+// single-flight and capacity oracles judge it.
+func genBigConc(r *sim.Rng, c *sim.Case) {
+	n := sim.Pick(r, 16384, 16385, 17000, 20000)
+	c.Knobs["capacity"] = int64(n + sim.Pick(r, 0, 1, 5000))
+	c.Knobs["flavor"] = int64(sim.Pick(r, 0, 1))
+	c.Knobs["big"] = 1
+	c.Sched.MaxSteps = 12000000
+	c.Sched.Dense = false
+	fill := sim.Task{Name: "t0"}
+	for i := 0; i < n; i++ {
+		fill.Ops = append(fill.Ops, sim.Op{K: "get", S: fmt.Sprintf("k%d", i), F: true})
+	}
+	c.Tasks = append(c.Tasks, fill)
+	// the others start when the cache is full (simulated time passes only when everybody waits)
+	wait := int64(time.Second)
+	tA := sim.Task{Name: "t1", Ops: []sim.Op{{K: "jump", D: wait}, {K: "get", S: "x1"}, {K: "get", S: "x1"}, {K: "get", S: "k1"}}}
+	tB := sim.Task{Name: "t2", Ops: []sim.Op{{K: "jump", D: wait + int64(time.Microsecond)}, {K: sim.Pick(r, "clear", "clear", "remove"), S: "x1"}, {K: "get", S: "x2"}, {K: "clear"}}}
+	c.Tasks = append(c.Tasks, tA, tB)
+	for _, k := range []string{"x1", "x2"} {
+		c.Faults = append(c.Faults, sim.Fault{Seam: "loader", Kind: "sleep", Node: k, Ord: 1, D: int64(sim.Pick(r, time.Millisecond, 10*time.Millisecond))})
+	}
+	if c.Knobs["flavor"] == 1 {
+		for ti := range c.Tasks {
+			for oi := range c.Tasks[ti].Ops {
+				c.Tasks[ti].Ops[oi].N = int64(r.Intn(3))
+			}
+		}
+	}
+}
+
 func genConc(r *sim.Rng, c *sim.Case, keys []string) {
+	if c.Prop == "C09" && r.Chance(1, 1000) {
+		genBigConc(r, c)
+		return
+	}
 	c.Knobs["capacity"] = int64(1 + r.Intn(3))
 	if r.Chance(1, 12) && !noHuge {
 		c.Knobs["capacity"] = hugeCapacity(r)
